@@ -92,7 +92,10 @@ func (b *Backend) AddEndpoint(ip string, port int, targetRef string) *Endpoint {
 
 func (b *Backend) sanitizeName(name string, idx int) string {
 	if name == "" {
-		return fmt.Sprintf("srv%03d", len(b.Endpoints)+1)
+		// the sequence name of an empty slot, or of an endpoint without a pod or
+		// ip based name, can be in use by a pod-named endpoint, e.g. a pod
+		// literally named srv002, so it needs to be made unique as well
+		name = fmt.Sprintf("srv%03d", len(b.Endpoints)+1)
 	}
 	sname := name
 	if idx > 1 {
